@@ -642,8 +642,9 @@ class LLMRails:
                 options = GenerationOptions()
             options.output_vars = True
 
+        streaming_handler_token = None
         if streaming_handler:
-            streaming_handler_var.set(streaming_handler)
+            streaming_handler_token = streaming_handler_var.set(streaming_handler)
 
         # Initialize the object with additional explanation information.
         # We allow this to also be set externally. This is useful when multiple parallel
@@ -814,6 +815,11 @@ class LLMRails:
         if streaming_handler:
             # print("Closing the stream handler explicitly")
             await streaming_handler.push_chunk(None)
+
+        # A handler passed to this call is meant for this call only: a later call made
+        # from the same context must not take the streaming path and push into it.
+        if streaming_handler_token is not None:
+            streaming_handler_var.reset(streaming_handler_token)
 
         # IF tracing is enabled we need to set GenerationLog attrs
         if self.config.tracing.enabled:
